@@ -329,3 +329,312 @@ class RestGen:
                             "alias": [], "ctx": "ctx" if ctx else None, "ctxpos": 0, "params": params,
                             "result": self.result()})
         return {"name": name, "headers": None, "structs": [], "methods": methods, "force_results": True}
+
+
+# ================================================================================================
+# C06: requests
+# ================================================================================================
+
+PATH_LITS = ["users", "v1", "items", "a-b", "x_y", "o.json", "(v2)", "~me", "search", "Orders", "p:1", "a,b", "x=y", "k}"]
+PH_NAMES = ["id", "userID", "name", "item_id", "n", "Kind", "x1"]
+Q_NAMES = ["q", "page", "size", "flag", "key", "sort", "limit", "verbose", "since", "pageSize", "pageIdx"]
+WIRE_NAMES = ["page_size", "page_idx", "user-id", "k", "sz", "Q", "id2", "sort_by", "x|y"]
+FIELD_NAMES = ["Name", "PageSize", "PageIdx", "ID", "UserID", "URL", "X", "IsOK", "HTTPCode", "name2", "pageNo", "kind", "user_name", "n"]
+BASES = ["http://h.invalid", "http://h.invalid/api", "http://h.invalid/api/", "https://h.invalid:8443/v1/x"]
+HEADER_SETS = [None, None, [("Authorization", "Bearer abc")], [("X-Env", "test"), ("Accept", "text/plain")],
+               [("X-Trace-Id", "t-1"), ("Content-Type", "application/xml"), ("X-B", "a b c")], [("Accept", "application/vnd.x+json")]]
+SAFE_STRINGS = ["abc", "u1", "A_b-9", "42"]
+UNSAFE_STRINGS = ["a b", "a/b", "x?y=z&w", "été", "50%25", "a+b", "#frag", "", "..", "a%2Fb", "k=v", "a&b", "sp ace/sl", "per%cent", "semi;colon", "q\"uote", "back\\slash", "~t:1,2"]
+BRACE_STRINGS = ["{id}", "x{n}y", "{", "{name}", "{userID}"]
+SC_TYPES = ["string", "string", "int", "int64", "bool", "uint8", "float64"]
+FLOATS = [("1.5", "1.5"), ("0.25", "0.25"), ("2", "2"), ("-0.5", "-0.5")]
+DICT_TYPES = ["map[string]string", "map[string]int", "map[string]any"]
+
+
+def scalar_value(rng, ty, unsafe=0.5, brace=0.0):
+    """-> (go expression of type ty, the text %v prints)"""
+    if ty == "string":
+        r = rng.random()
+        if r < brace:
+            s = rng.choice(BRACE_STRINGS)
+        elif r < brace + unsafe:
+            s = rng.choice(UNSAFE_STRINGS)
+        else:
+            s = rng.choice(SAFE_STRINGS)
+        return go_string(s), s
+    if ty == "int":
+        n = rng.choice([0, 7, -3, 1234567, 42])
+        return "int(%d)" % n, str(n)
+    if ty == "int64":
+        n = rng.choice([0, 9007199254740993, -1, 64])
+        return "int64(%d)" % n, str(n)
+    if ty == "bool":
+        b = rng.random() < 0.5
+        return ("true" if b else "false"), ("true" if b else "false")
+    if ty == "uint8":
+        n = rng.choice([0, 200, 255, 9])
+        return "uint8(%d)" % n, str(n)
+    if ty == "float64":
+        lit, txt = rng.choice(FLOATS)
+        return "float64(%s)" % lit, txt
+    raise ValueError(ty)
+
+
+class C06Gen:
+    def __init__(self, rng):
+        self.rng = rng
+        self.k = 0
+
+    def struct(self, where="same"):
+        rng = self.rng
+        self.k += 1
+        names = rng.sample(FIELD_NAMES, rng.randint(1, 4))
+        if where == "sub":
+            names = [n for n in names if n[:1].isupper()] or ["Name"]
+        fields = []
+        for n in names:
+            f = {"name": n, "type": rng.choice(SC_TYPES), "ptr": rng.random() < 0.3, "alias": None, "json": None}
+            r = rng.random()
+            if r < 0.35:
+                f["alias"] = rng.choice(["size", "page_idx", "nm", "k2", "ID", "q"])
+            if rng.random() < 0.3:
+                f["json"] = rng.choice([n.lower(), "j_" + n.lower() + ",omitempty"])
+            fields.append(f)
+        # aliases within one struct are distinct
+        seen = set()
+        for f in fields:
+            if f["alias"] in seen:
+                f["alias"] = None
+            seen.add(f["alias"])
+        return {"name": ("Req%d" % self.k), "where": where, "fields": fields}
+
+    def method(self, name, ctx, verb=None, shape=None, **force):
+        rng = self.rng
+        verb = verb or rng.choice(VERBS)
+        m = {"name": name, "verb": verb, "verbtext": verbtext(rng, verb), "quoted": rng.random() < 0.7, "alias": [],
+             "ctx": ("ctx" if ctx else None), "ctxpos": 0, "params": [], "structs": [],
+             "tail": rng.choice(["", "", "", ";", " ;", " ; ", "  "]),
+             "result": RestGen(rng).result(shape)}
+        used = set(["ctx"])
+        wire_used = set()
+        # path
+        segs = []
+        nph = force.get("nph", rng.choice([0, 1, 1, 1, 2, 2, 3]))
+        phs = []
+        for _ in range(nph):
+            if phs and rng.random() < 0.12:
+                phs.append(rng.choice(phs))          # the same placeholder twice
+            else:
+                cand = [n for n in PH_NAMES if n not in [p for p in phs]]
+                phs.append(rng.choice(cand))
+        nlit = rng.randint(0 if nph else 1, 3)
+        items = [("ph", p) for p in phs] + [("lit", rng.choice(PATH_LITS)) for _ in range(nlit)]
+        # keep placeholder order of first appearance random but stable
+        rng.shuffle(items)
+        path = "".join("/" + (("{%s}" % v) if k == "ph" else v) for k, v in items)
+        if rng.random() < 0.1:
+            path += "/"
+        if rng.random() < 0.1 and path.startswith("/"):
+            path = path[1:] or "x"
+        if not m["quoted"] and (path != path.strip()):
+            m["quoted"] = True
+        m["path"] = path
+        for ph in dict.fromkeys(p for k, p in items if k == "ph"):
+            wire_used.add(ph)
+            if rng.random() < 0.4:
+                # parameter under another Go name, aliased to the placeholder
+                pn = rng.choice([n for n in ["uid", "theID", "who", "itemKey", "num", "kd", "xx"] if n not in used])
+                m["alias"].append((pn, ph))
+            else:
+                pn = ph
+            used.add(pn)
+            m["params"].append({"name": pn, "kind": "scalar", "type": rng.choice(["string", "string", "int", "int64", "uint8", "bool"]), "ptr": False,
+                                "role": "path"})
+        # query-ish scalars
+        for _ in range(force.get("nscalar", rng.choice([0, 1, 1, 2, 3]))):
+            cand = [n for n in Q_NAMES if n not in used and n not in wire_used]
+            if not cand:
+                break
+            pn = rng.choice(cand)
+            used.add(pn)
+            p = {"name": pn, "kind": "scalar", "type": rng.choice(SC_TYPES), "ptr": rng.random() < 0.35, "role": "query"}
+            if rng.random() < 0.35:
+                cw = [w for w in WIRE_NAMES if w not in wire_used and w not in used]
+                if cw:
+                    w = rng.choice(cw)
+                    wire_used.add(w)
+                    m["alias"].append((pn, w))
+            m["params"].append(p)
+        # struct parameter
+        want_struct = force.get("struct", verb in BODY_VERBS or rng.random() < 0.45)
+        if want_struct:
+            where = force.get("where", rng.choice(["same", "same", "same", "sub"]))
+            s = self.struct(where)
+            m["structs"].append(s)
+            pn = rng.choice([n for n in ["req", "body", "in", "u"] if n not in used])
+            used.add(pn)
+            m["params"].append({"name": pn, "kind": "struct", "type": ("sub." if where == "sub" else "") + s["name"], "ptr": rng.random() < 0.4,
+                                "struct": s, "role": "struct"})
+        # map parameter
+        if force.get("dict", rng.random() < 0.35):
+            pn = rng.choice([n for n in ["params", "extra", "m", "opts"] if n not in used])
+            used.add(pn)
+            m["params"].append({"name": pn, "kind": "dict", "type": rng.choice(DICT_TYPES), "ptr": False, "role": "dict"})
+        # parameter order: shuffle, context anywhere
+        rng.shuffle(m["params"])
+        m["ctxpos"] = rng.randint(0, len(m["params"])) if rng.random() < 0.3 else 0
+        rng.shuffle(m["alias"])
+        m["aliastail"] = rng.choice(["", "", ";", "; note"])
+        return m
+
+    def iface(self, name=None, nmethods=None, ctx=None, **force):
+        rng = self.rng
+        name = name or rng.choice(IFACE_NAMES)
+        ctx = (rng.random() < 0.7) if ctx is None else ctx
+        n = nmethods or rng.randint(1, 4)
+        names = rng.sample(METHOD_NAMES, n)
+        ms = [self.method(mn, ctx, **force) for mn in names]
+        structs = [s for m in ms for s in m.pop("structs")]
+        return {"name": name, "headers": rng.choice(HEADER_SETS), "structs": structs, "methods": ms, "base": rng.choice(BASES)}
+
+    # ---- argument vectors -----------------------------------------------------------------------
+    def args_for(self, m, k, nil_struct=0.0, brace=0.0, unsafe=0.5):
+        """-> (list of go argument expressions in signature order, sexp arg list, json expression or None)"""
+        rng = self.rng
+        go_args, sx = [], []
+        jsonexpr = None
+        for p in m["params"]:
+            kind = p["kind"]
+            if kind == "scalar" or kind == "qual":
+                is_path = p.get("role") == "path"
+                if p.get("ptr") and rng.random() < 0.4:
+                    go_args.append("nil")
+                    sx.append([Q(p["name"]), "nil"])
+                    continue
+                if kind == "qual":
+                    n = rng.choice([1500000000, 0, 42])
+                    expr, txt = "time.Duration(%d)" % n, {1500000000: "1.5s", 0: "0s", 42: "42ns"}[n]
+                else:
+                    expr, txt = scalar_value(rng, p["type"], unsafe=(unsafe if not is_path else unsafe * 0.8), brace=(brace if is_path else 0.05))
+                    if is_path and brace == 0.0 and "{" in txt:
+                        expr, txt = go_string("plain"), "plain"
+                go_args.append("vrest.Ptr(%s)" % expr if p.get("ptr") else expr)
+                sx.append([Q(p["name"]), ["s", Q(txt)]])
+            elif kind == "struct":
+                s = p["struct"]
+                if p.get("ptr") and rng.random() < nil_struct:
+                    go_args.append("nil")
+                    sx.append([Q(p["name"]), "stnil"])
+                    if m["verb"] in BODY_VERBS:
+                        jsonexpr = "(*%s)(nil)" % p["type"]
+                    continue
+                inits, fs = [], []
+                for f in s["fields"]:
+                    if f["ptr"] and rng.random() < 0.4:
+                        fs.append([Q(f["name"]), "nil"])
+                        continue
+                    expr, txt = scalar_value(rng, f["type"], unsafe=unsafe)
+                    inits.append("%s: %s" % (f["name"], ("vrest.Ptr(%s)" % expr) if f["ptr"] else expr))
+                    fs.append([Q(f["name"]), ["s", Q(txt)]])
+                lit = "%s{%s}" % (p["type"], ", ".join(inits))
+                go_args.append(("&" if p.get("ptr") else "") + lit)
+                sx.append([Q(p["name"]), ["st"] + fs])
+                if m["verb"] in BODY_VERBS:
+                    jsonexpr = ("&" if p.get("ptr") else "") + lit
+            elif kind == "dict":
+                r = rng.random()
+                if r < 0.15:
+                    go_args.append("nil")
+                    sx.append([Q(p["name"]), ["d"]])
+                    continue
+                keys = rng.sample(["k", "size", "q", "page_size", "a b", "x&y", "ü", "z", "sort"], rng.randint(0, 3))
+                ents, sxe = [], []
+                for key in keys:
+                    if p["type"] == "map[string]int":
+                        n = rng.choice([0, 5, -1])
+                        ents.append("%s: %d" % (go_string(key), n))
+                        sxe.append([Q(key), Q(str(n))])
+                    elif p["type"] == "map[string]any" and rng.random() < 0.5:
+                        expr, txt = scalar_value(rng, rng.choice(["int", "bool", "float64"]))
+                        ents.append("%s: %s" % (go_string(key), expr))
+                        sxe.append([Q(key), Q(txt)])
+                    else:
+                        expr, txt = scalar_value(rng, "string", unsafe=unsafe)
+                        ents.append("%s: %s" % (go_string(key), expr))
+                        sxe.append([Q(key), Q(txt)])
+                lit = "%s{%s}" % (p["type"], ", ".join(ents))
+                go_args.append(("&" if p.get("ptr") else "") + lit)
+                sx.append([Q(p["name"]), ["d"] + sxe])
+            elif kind == "unsupported":
+                go_args.append("nil")
+            else:
+                raise ValueError(kind)
+        tag = "t%d" % k
+        if m.get("ctx"):
+            pos = min(m.get("ctxpos", 0), len(go_args))
+            go_args.insert(pos, 'vrest.TaggedCtx("%s")' % tag)
+            sx.append([Q(m["ctx"]), ["ctx", Q(tag)]])
+        return go_args, sx, jsonexpr
+
+
+def method_doc(m):
+    """what ast.CommentGroup.Text() returns for the directive comment: `//` and one following blank removed, lines joined"""
+    out = []
+    for ln in directive_lines(m):
+        t = ln[2:]
+        if t.startswith(" "):
+            t = t[1:]
+        out.append(t.rstrip())
+    return "\n".join(out) + "\n"
+
+
+def kind_sexp(p):
+    k = p["kind"]
+    if k == "struct":
+        fs = []
+        for f in p["struct"]["fields"]:
+            tag = ("alias=%s" % f["alias"]) if f.get("alias") else ""
+            fs.append(["f", Q(f["name"]), "ptr" if f.get("ptr") else "val", Q(tag)])
+        return ["struct"] + fs
+    return {"scalar": "scalar", "dict": "dict", "qual": "qual", "unsupported": "unsupported"}[k]
+
+
+def iface_sexp(cid, iface, calls):
+    hdoc = ""
+    if iface.get("headers"):
+        hdoc = "shoot: headers=" + ",".join("{%s:%s}" % (k, v) for k, v in iface["headers"]) + "\n"
+    ms = []
+    for m in iface["methods"]:
+        ps = [["p", Q(p["name"]), kind_sexp(p), "ptr" if p.get("ptr") else "val"] for p in m["params"]]
+        if m.get("ctx"):
+            ps.insert(min(m.get("ctxpos", 0), len(ps)), ["p", Q(m["ctx"]), "ctx", "val"])
+        ms.append(["m", Q(m["name"]), ["doc", Q(method_doc(m))], ["verb", m["verb"].lower()], ["path", Q(m["path"])],
+                   ["alias"] + [[Q(a), Q(b)] for a, b in m["alias"]], ["params"] + ps])
+    cs = [["c", Q(c["method"])] + c["sexp"] for c in calls]
+    return dump(["case", cid, "rest-iface", ["hdoc", Q(hdoc)], ["headers"] + [[Q(k), Q(v)] for k, v in (iface.get("headers") or [])],
+                 ["methods"] + ms, ["calls"] + cs])
+
+
+def c06_oracle(pkg, iface, calls, modpath):
+    n = iface["name"]
+    imports = ['"encoding/json"', '"net/http"', "", '"github.com/lopolopen/shoot"', '"verifcases/vrest"']
+    src = "\n".join(" ".join(c["go"]) + (c.get("json") or "") for c in calls)
+    if "time." in src:
+        imports.insert(0, '"time"')
+    if "sub." in src:
+        imports.append('"%s/sub"' % modpath)
+    lines = ["package " + pkg, "", "import ("] + [("\t" + i) if i else "" for i in imports] + [")", "",
+             "func verifJSON(v any) string {", "\tb, err := json.Marshal(v)", "\tif err != nil {", '\t\treturn "error:" + err.Error()', "\t}",
+             "\treturn string(b)", "}", "",
+             "func VerifObserve(emit func(string, string)) {",
+             "\tsc := &vrest.Script{}",
+             "\tc := shoot.NewRest[%s](shoot.BaseURL(%s)).ConfigHTTPClient(func(h *http.Client) { h.Transport = sc })" % (n, go_string(iface["base"]))]
+    for i, c in enumerate(calls):
+        m = c["m"]
+        call = "c.%s(%s)" % (m["name"], ", ".join(c["go"]))
+        lhs = "_, _ = " if m["result"]["shape"] == "none" else "_, _, _ = "
+        lines.append('\tvrest.ObserveRequest(emit, "c%d.", sc, func() { %s%s })' % (i, lhs, call))
+        if c.get("json"):
+            lines.append('\temit("c%d.argjson", vrest.Quote(verifJSON(%s)))' % (i, c["json"]))
+    lines.append("}")
+    return "\n".join(lines) + "\n"
